@@ -154,4 +154,17 @@ theorem h1Path_not_crash {cfg : Cfg} {req : Req} {net : Net} : h1Path cfg req ne
     · simp
     · exact carry_not_crash
 
+theorem t2Dial_ok_accept {cfg : Cfg} {req : Req} {net : Net} {w : Ver}
+    (hd : cfg.dialTLS = false) (hh : cfg.handshake = false)
+    (h : t2Dial cfg req net = .ok w) : net.tcpAccept = true := by
+  unfold t2Dial at h
+  simp [hd, hh] at h
+  split at h
+  · split at h
+    · cases h
+    · split at h
+      · cases h
+      · simp_all
+  · cases h
+
 end Req.Lemmas.Dispatch
